@@ -4,7 +4,7 @@ import sys
 import threading
 import time
 
-from .common import signature, detail, case_of, account_build
+from .common import signature, detail, case_of, account_build, nested_cache_rel
 from ..env import Scratch
 from ..world import World
 from .. import sched, env
@@ -230,7 +230,7 @@ def run_shard(sh):
     while sh.time_left() > 0:
         program, prior, T, parents = gen_scenario(rng)
         with Scratch('t') as sc:
-            w = World(sc, 'k/cache.gz' if rng.random() < 0.15 else 'cache.gz')
+            w = World(sc, nested_cache_rel(rng, program) if rng.random() < 0.15 else 'cache.gz')
             if not setup_world(w, program, prior, parents, rng):
                 sh.count('scenario_setup_diverged')
                 continue
